@@ -4780,9 +4780,24 @@ int main(int argc, char** argv) {
             ephemeralnet::daemon::ControlFields base_fields{{"MANIFEST", manifest_uri},
                                                             {"STREAM", "client"}};
 
+            // Bytes handed back by a daemon or a remote endpoint are only accepted when they hash to the manifest's content hash.
+            auto payload_matches_manifest = [&](const ephemeralnet::daemon::ControlResponse& response) {
+                if (!decoded_manifest.has_value()) {
+                    return false;
+                }
+                const auto digest = ephemeralnet::crypto::Sha256::digest(
+                    std::span<const std::uint8_t>(response.payload.data(), response.payload.size()));
+                return digest == decoded_manifest->chunk_hash;
+            };
+
             auto finalize_fetch = [&](const ephemeralnet::daemon::ControlResponse& response) {
                 const auto reported_size = response.fields.contains("SIZE") ? response.fields.at("SIZE") : "0";
                 if (response.has_payload) {
+                    if (!payload_matches_manifest(response)) {
+                        throw_cli_error("E_FETCH_HASH_MISMATCH",
+                                        "Received data does not match the manifest's content hash",
+                                        "The source returned different bytes; retry or use another endpoint.");
+                    }
                     try {
                         std::ofstream out(resolved_output, std::ios::binary | std::ios::trunc);
                         if (!out) {
@@ -5093,6 +5108,11 @@ int main(int argc, char** argv) {
                         const std::string reason = message_it != response->fields.end() ? message_it->second
                                                                                          : "Remote daemon rejected request";
                         attempt_log.push_back({friendly_label, reason});
+                        return false;
+                    }
+
+                    if (response->has_payload && !payload_matches_manifest(*response)) {
+                        attempt_log.push_back({friendly_label, "Returned data does not match the manifest's content hash"});
                         return false;
                     }
 
